@@ -70,14 +70,12 @@ theorem fn_loop_form (hn : 2 ≤ n) (A : FnAngles Θ) (hγ : (ex A.zero * ex A.z
         · rfl
         · have := fnMatch_trans' n zf pt.z p.z hzp hz
           rw [hpw'.1 p hp] at this; cases this
-      beta_reduce
       rw [hne]
       simp only [Bool.false_eq_true, if_false]
       exact hcoef p (List.mem_cons_of_mem _ hp) zf hz)]
     show fnForm L n ψ0 (fnLast pt.z rest) (fnGenAfter A (cs (A.theta rest.length) * gen) rest) _ = _
     congr 1
     funext zf
-    beta_reduce
     rw [List.any_cons]
     cases hzp : fnMatch n zf pt.z
     · -- the head does not match: defer to the tail
